@@ -690,3 +690,35 @@ Definition poll_result (s : state) (p : nat) : option pres :=
   | Some pl => match ppc pl with LDone r => Some r | _ => None end
   | None => None
   end.
+
+(* ------------------------------------------------------------------ what the atomic insert is for
+   A variant of subscribe in which the new cache is installed with topics.Store instead of
+   topics.LoadOrStore: the existence check ([SubLoad]) and the insert are then two independent
+   steps, and the insert replaces whatever another subscribe of the same client and topic has
+   installed meanwhile.  Only used to exhibit the run in which an accepted message is lost. *)
+Definition store_step (s : state) (w : nat) : option state :=
+  match nth_error (works s) w with
+  | Some wk =>
+      match wsub wk, wf wk with
+      | None, WSub id tp SubStore =>
+          let c := length (caches s) in
+          Some (set_work (set_table (set_caches s (caches s ++ [ {| cown := (id, tp); cmsgs := [];
+                                                                    ctaken := []; cdel := 0 |} ]))
+                                    (tdel id tp (table s) ++ [(id, tp, c)]))
+                         w (WSub id tp (SubDone true)) None)
+      | _, _ => None
+      end
+  | None => None
+  end.
+
+Definition step_nonatomic (s : state) (e : event) : option state :=
+  match e with
+  | EWork w _ => match store_step s w with Some s' => Some s' | None => step s e end
+  | _ => step s e
+  end.
+
+Fixpoint run_nonatomic (s : state) (sched : list event) : option state :=
+  match sched with
+  | [] => Some s
+  | e :: r => match step_nonatomic s e with None => None | Some s' => run_nonatomic s' r end
+  end.
